@@ -21,8 +21,8 @@ type c03Case struct {
 	OnlyW *tblW `json:"only_w,omitempty"`
 	OnlyR *tblR `json:"only_r,omitempty"`
 	// Seq > 0: a table of Seq sequential keys k0002, k0004, ... (even numbers, so every odd one is an absent probe in between)
-	Seq    int    `json:"seq,omitempty"`
-	SeqW   int    `json:"seqw,omitempty"` // 1-based index into the write configurations (0 = all)
+	Seq  int `json:"seq,omitempty"`
+	SeqW int `json:"seqw,omitempty"` // 1-based index into the write configurations (0 = all)
 	// Big: one table with values beyond every internal size class (pool buckets, buffers): 600 000 and 2^20+5 bytes
 	Big    bool   `json:"big,omitempty"`
 	Sample string `json:"-"`
